@@ -227,11 +227,11 @@ def run(ctx):
     ctx.floor("R4", "offset+length bound checks in frame parsers", n4, 2)
     # ---------------------------------------------------------------- R5 by reference
     ctx.rule("R5", "the prescribed error is raised for exactly the hostile values: operand roles and strictness of the final-size, "
-                   "stream-limit and stream-count comparisons (C12-R1/R5 and C11-R5 obligations re-evaluated)")
+                   "stream-limit and stream-count comparisons (C12-R1/R5, C11-R5 and C13-R11 obligations re-evaluated)")
     import importlib
     from qlint import framework as fw
     n5 = 0
-    for pid, keep in (("C12", lambda o: o.rule in ("R1", "R5")), ("C11", lambda o: o.rule == "R5")):
+    for pid, keep in (("C12", lambda o: o.rule in ("R1", "R5")), ("C11", lambda o: o.rule == "R5"), ("C13", lambda o: o.rule == "R11")):
         sub = fw.Ctx(pid, ctx.tier, ctx.seed, prog)
         importlib.import_module("rules." + pid).run(sub)
         for o in sub.obs:
